@@ -124,7 +124,7 @@ func c08(c *Ctx) {
 	// the model: accept/reject and Sprint, for drift only (and the chunk-reader model on a sample)
 	var model []string
 	if c.Proofs.ModelBuilt {
-		// the model is compared for drift only: every input up to 300,000, beyond that every input that is
+		// the model is compared for drift only: every input up to 300,000, beyond that (and never for inputs over 2 KiB: the extracted lexer is quadratic in the length) every input that is
 		// not one of the exhaustive token strings plus a seeded sample of those (the extracted lexer
 		// needs about a millisecond per input)
 		lines := make([]string, len(inputs))
@@ -133,13 +133,13 @@ func c08(c *Ctx) {
 			keepEvery = len(inputs)/200000 + 1
 		}
 		for i, in := range inputs {
-			if keepEvery > 1 && i < exhaustive && i%keepEvery != 0 || len(in) > 16384 {
+			if keepEvery > 1 && i < exhaustive && i%keepEvery != 0 || len(in) > 2048 {
 				lines[i] = "parse\t" + hexs("") + "\t" + h.UniTable("") // placeholder, not compared
 				continue
 			}
 			lines[i] = "parse\t" + hexs(in) + "\t" + h.UniTable(in)
 		}
-		skipModel := func(i int) bool { return keepEvery > 1 && i < exhaustive && i%keepEvery != 0 || len(inputs[i]) > 16384 }
+		skipModel := func(i int) bool { return keepEvery > 1 && i < exhaustive && i%keepEvery != 0 || len(inputs[i]) > 2048 }
 		var err error
 		model, err = h.RunModel(c.Driver, lines)
 		c.CrossAll(lines, model) // (line, answer) pairs as the driver gave them, placeholders included
